@@ -356,9 +356,11 @@ def ofRaw (r : RawEv) : Option (Option Ev) :=
   ("all of them do return" is decided by the run's status: HANG / BUDGET.)
 
   For a `no_early_pass` failure the monitor also reports HOW the fiber got out, from the
-  queue traffic it has seen: `cause=reuse_race` = it was popped by the serial fiber of the
-  PREVIOUS counter round while an arrival of that previous round had done its fetch_add but
-  was not yet linked into the queue (the F-C12 shape); anything else is `cause=other`. -/
+  queue traffic it has seen: `cause=reuse_race` = its queue entry, enqueued by an arrival of
+  counter round m+1, was popped by the serial fiber of counter round m while a waiter of
+  round m was still outstanding (fetch_add done, entry not yet enqueued or queued behind):
+  the F-C12 shape, the round-(m+1) arrival displaces the round-m waiter.  Anything else
+  (e.g. a serial fiber that pops more entries than its round has waiters) is `cause=other`. -/
 
 structure Mon where
   count : Nat
@@ -370,12 +372,12 @@ structure Mon where
   ret : List (Nat × Nat) := []
   /-- fiber ↦ counter round of its latest arrival -/
   cr : List (Nat × Nat) := []
-  /-- non-serial arrivals not yet linked into a queue: (fiber, counter round) -/
-  inflight : List (Nat × Nat) := []
+  /-- non-serial arrivals whose queue entry has not been popped yet: (fiber, counter round) -/
+  pending : List (Nat × Nat) := []
   /-- per queue: entries (fiber, counter round) in xchg order, not yet popped -/
   qs : List (Nat × List (Nat × Nat)) := []
   /-- fiber ↦ how it was last popped: (counter round of the popper, counter round of the
-      entry, was an arrival of the popper's round still in flight?) -/
+      entry, was a waiter of the popper's round still outstanding?) -/
   how : List (Nat × (Nat × Nat × Bool)) := []
 
 def lookupD {α : Type} (l : List (Nat × α)) (k : Nat) (d : α) : α := (l.lookup k).getD d
@@ -388,26 +390,24 @@ def Mon.step (m : Mon) : Ev → Except String Mon
     let k := lookupD m.cur f 0
     let c := old / m.count
     let m := { m with arr := setKV m.arr k (lookupD m.arr k 0 + 1), cr := setKV m.cr f c }
-    if (old + 1) % m.count = 0 then .ok m else .ok { m with inflight := (f, c) :: m.inflight }
+    if (old + 1) % m.count = 0 then .ok m else .ok { m with pending := (f, c) :: m.pending }
   | .xchgTail f q _ _ =>
     let c := lookupD m.cr f 0
     .ok { m with qs := setKV m.qs q (lookupD m.qs q [] ++ [(f, c)]) }
-  | .wNext f _ x =>
-    -- the link write `prev->next = node` (x ≠ 0) ends the in-flight window
-    if x ≠ 0 then .ok { m with inflight := m.inflight.filter (fun p => p.1 ≠ f) } else .ok m
   | .wHead f q _ =>
     match lookupD m.qs q [] with
     | (g, c) :: rest =>
       let cp := lookupD m.cr f 0
-      .ok { m with qs := setKV m.qs q rest,
-                   how := setKV m.how g (cp, c, m.inflight.any (fun p => p.2 = cp)) }
+      let pend := m.pending.filter (fun p => p.1 ≠ g)
+      .ok { m with qs := setKV m.qs q rest, pending := pend,
+                   how := setKV m.how g (cp, c, pend.any (fun p => p.2 = cp)) }
     | [] => .ok m
   | .retWait f k serial =>
     let a := lookupD m.arr k 0
     if a < m.count then
-      let (cp, c, infl) := lookupD m.how f (0, 0, false)
-      let cause := if c = cp + 1 ∧ infl ∧ ¬ serial then "reuse_race" else "other"
-      .error s!"no_early_pass: fiber {f} returned from its wait {k} (serial={serial}) when only {a} of {m.count} fibers had entered their wait {k}; cause={cause} (its queue entry of counter round {c} was popped by the serial fiber of counter round {cp}, round-{cp} arrival still in flight: {infl})"
+      let (cp, c, disp) := lookupD m.how f (0, 0, false)
+      let cause := if c = cp + 1 ∧ disp ∧ ¬ serial then "reuse_race" else "other"
+      .error s!"no_early_pass: fiber {f} returned from its wait {k} (serial={serial}) when only {a} of {m.count} fibers had entered their wait {k}; cause={cause} (its queue entry of counter round {c} was popped by the serial fiber of counter round {cp}; a round-{cp} waiter was still outstanding: {disp})"
     else
       let s := lookupD m.ser k 0 + (if serial then 1 else 0)
       let r := lookupD m.ret k 0 + 1
@@ -424,14 +424,52 @@ def monitor (count : Nat) (evs : List Ev) : Option String :=
       | .error msg => some msg
   go { count := count } evs
 
+/-! ### end-of-log oracle for "all of them do return"
+
+  A run that did not finish (status HANG / BUDGET) is a *definite* failure only if the state
+  the model has reached cannot make progress under ANY further schedule: every fiber has
+  started, each one is either finished (`rounds` waits done), or parked with its queue entry
+  not popped, or a serial fiber polling a queue with nothing to pop - and at least one is not
+  finished.  (A budget exhausted while some fiber is in the middle of an operation, e.g.
+  starved by a strict-priority schedule, is inconclusive and not flagged.) -/
+
+def blockedOrDone (rounds : Nat) (s : St) (f : Nat) : Bool :=
+  match s.pc f with
+  | .idle => s.rnd f = rounds
+  | .parked _ _ => true
+  | .wakeLoop q _ _ => (s.q q).headNext = 0
+  | .popGotHead q _ _ _ => (s.q q).headNext = 0
+  | _ => false
+
+def stuck (count rounds : Nat) (s : St) : Option String :=
+  if s.members.length = count ∧ s.members.all (blockedOrDone rounds s)
+      ∧ s.members.any (fun f => !(s.pc f = .idle)) then
+    let parked := s.members.filter (fun f => match s.pc f with | .parked _ _ => true | _ => false)
+    let polling := s.members.filter (fun f => match s.pc f with
+      | .wakeLoop _ _ _ => true | .popGotHead _ _ _ _ => true | _ => false)
+    some s!"stranded: the run can never complete: counter={s.counter}, fibers {parked} are parked with their queue entries never popped, serial fibers {polling} poll for waiters that cannot arrive"
+  else none
+
+/-- last state the model reaches on the decoded events (stops at a divergence) -/
+def finalState (M : Sys St Ev) : St → List Ev → St
+  | s, [] => s
+  | s, e :: es => match M.step s e with
+    | some s' => finalState M s' es
+    | none => s
+
 def drive (lines : List String) : IO UInt32 := do
   let args := initArgs lines
   let count := (args[1]?.bind String.toNat?).getD 1
   let queues := (args[2]?.bind String.toNat?).getD 1
+  let rounds := (args[3]?.bind String.toNat?).getD 0
   let body := lines.filter (fun l => !isInit l)
   -- every fiber F<k> starts out owning node N<k>
-  let v := validateP (sys count queues (fun k => k + 3)) ofRaw body
+  let M := sys count queues (fun k => k + 3)
+  let v := validateP M ofRaw body
   let evs := body.filterMap (fun l => (parseLine l).bind (fun r => (ofRaw r).join))
-  report "Barrier" v (monitor count evs)
+  let mon := match monitor count evs with
+    | some m => some m
+    | none => stuck count rounds (finalState M M.init evs)
+  report "Barrier" v mon
 
 end LibfiberVerif.Barrier
